@@ -78,3 +78,29 @@ for sid in sorted(os.listdir(os.path.join(ROOT, "seeded"))):
     json.dump(meta, open(os.path.join(d, "meta.json"), "w"), indent=1)
     n += 1
 print("meta.json written for", n, "round-2 seeds")
+# round-1 seeds: refresh the detection part from the same sweep; table of all seeds
+rows = []
+for sid in sorted(os.listdir(os.path.join(ROOT, "seeded"))):
+    if not re.match(r"C\d\d-[ABCD]$", sid):
+        continue
+    prop = sid.split("-")[0]
+    f = os.path.join(DET, sid + ".txt")
+    det_txt = open(f).read() if os.path.exists(f) else ""
+    m = re.search(r"%s %s rc=(\d+) nviol=(\d+) rules:\s*(.*)" % (sid, prop), det_txt)
+    own = bool(m and m.group(1) == "1" and int(m.group(2)) > 0)
+    rules = sorted(set(re.findall(r"\d+ ([\w:@*]+)", m.group(3)))) if m else []
+    mp = os.path.join(ROOT, "seeded", sid, "meta.json")
+    if re.match(r"C\d\d-[AB]$", sid) and os.path.exists(mp) and m:
+        meta = json.load(open(mp))
+        meta["detection"]["caught_by_own_check"] = own
+        meta["detection"]["rules_that_fired"] = rules
+        meta["detection"]["last_full_sweep"] = "tools/seedrun.sh %s against the final checks" % sid
+        json.dump(meta, open(mp, "w"), indent=1)
+    rows.append((sid, "yes" if own else ("NOT RUN" if not m else "no"), ", ".join(rules)))
+with open(os.path.join(ROOT, "seeded", "DETECTION.md"), "w") as fh:
+    fh.write("# Seeded changes against the final checks\n\nOne scratch worktree of /repo HEAD per seed (`tools/seedrun.sh <seed>`: git apply, `VERIF_REPO=<worktree> python3 tools/check.py <property> --tier quick`, worktree removed).\n\n")
+    fh.write("| seed | caught by the property's own quick check | rules that fired |\n|---|---|---|\n")
+    for r in rows:
+        fh.write("| %s | %s | %s |\n" % r)
+    fh.write("\n%d of %d caught.\n" % (sum(1 for r in rows if r[1] == "yes"), len(rows)))
+print("DETECTION.md:", sum(1 for r in rows if r[1] == "yes"), "of", len(rows))
